@@ -68,7 +68,7 @@ def selftest(pid, trace, nlines, seed):
     return ok, len(picks), len(rejected)
 
 
-def run_z80(pid, tier, seed, owned, scen_args, rule, assumptions, shards_q=2, shards_t=12):
+def run_z80(pid, tier, seed, owned, scen_args, rule, assumptions, shards_q=2, shards_t=12, shard_args=None):
     """owned: set of mismatch kinds this property is responsible for."""
     chk = Check(pid, tier, seed, "model_checking")
     wd = workdir(pid)
@@ -78,7 +78,7 @@ def run_z80(pid, tier, seed, owned, scen_args, rule, assumptions, shards_q=2, sh
 
     def shard(k):
         trace = os.path.join(wd, f"trace{k}.ndjson")
-        harness(["z80", "--out", trace, "--seed", seed * 1000 + k] + scen_args(quick))
+        harness(["z80", "--out", trace, "--seed", seed * 1000 + k] + scen_args(quick) + (shard_args(quick, k, shards) if shard_args else []))
         r, n, mm = validate(trace, f"t{k}", pid)
         return trace, r, n, mm
 
